@@ -197,12 +197,21 @@ func ZZ_C29() {
 // (symbolic) epoch: window edges, one nanosecond around them, and mid-hour instants.
 func ZZ_C29_hours() {
 	node := &Node{}
-	node.Epoch = vr.U64()
-	vr.Assume(node.Epoch > 0 && node.Epoch < 1<<61)
+	if vr.Bool() {
+		node.Epoch = vr.U64()
+		vr.Assume(node.Epoch > 0 && node.Epoch < 1<<61)
+	} else {
+		node.Epoch = 1551312000000000000 // a fixed epoch: the probes below are then fully concrete
+	}
 	offs := []uint64{6*3600e9 + 3599e9, 7 * 3600e9, 9*3600e9 + 1800e9, 9*3600e9 + 3599999999999, 10 * 3600e9, 12*3600e9 + 1, 13 * 3600e9, 19*3600e9 + 1, 19*3600e9 + 1800e9, 20 * 3600e9}
 	off := offs[vr.Choose(0, len(offs)-1)]
-	days := vr.U16()
-	probe := node.Epoch + uint64(days)*OneDay + off
+	var days uint64
+	if node.Epoch == 1551312000000000000 {
+		days = uint64(vr.Choose(0, 2))
+	} else {
+		days = uint64(vr.U16())
+	}
+	probe := node.Epoch + days*OneDay + off
 	ph := off / 3600000000000
 	vr.Assert(node.checkConsensusPledgeHour(probe) == !((ph >= 7 && ph <= 9) || (ph >= 13 && ph <= 19)), "pledge-window-at-fixed-offsets")
 	vr.Assert(node.checkConsensusAcceptHour(probe) == (ph >= 13 && ph <= 19), "accept-window-at-fixed-offsets")
